@@ -188,6 +188,43 @@ pub fn build(tier: Tier) -> Check<'static> {
         }));
     }
     {
+        // long programs: 1..40 items (thorough: 100) cycling through a 10-item pattern, so that the origin map
+        // grows well past one B-tree node and segment boundaries fall everywhere
+        let d = |name: &str, body: &str| Item::Define { name: name.into(), formals: None, body: body.into() };
+        let u = |n: &str, a: Option<Vec<&str>>| Item::Usage { name: n.into(), args: a.map(|v| v.iter().map(|s| s.to_string()).collect()) };
+        let pattern: Vec<Item> = vec![
+            Item::Text,
+            u("A", None),
+            Item::Cmt("/* c */".into()),
+            Item::Kept("`celldefine".into()),
+            Item::Lit("x = y ;".into()),
+            Item::Cond { neg: false, name: "A".into(), then: vec![Item::Text], elsifs: vec![], els: None },
+            u("F", Some(vec!["p"])),
+            Item::Str("\"s\"".into()),
+            Item::Line,
+            Item::Undef("Q".into()),
+        ];
+        let maxk = tier.pick(40u64, 100u64);
+        let np = pattern.len() as u64;
+        let n = maxk * np * 3 * 3;
+        c.parts.push(Part::new("long-programs", n, "programs of k items cycling through a 10-item pattern, every start, strides 1/3/7, 3 layouts", move |i, acc| {
+            let layout = [Layout::OwnLine, Layout::Inline, Layout::IndentCrlf][(i % 3) as usize];
+            let stride = [1usize, 3, 7][((i / 3) % 3) as usize];
+            let start = ((i / 9) % np) as usize;
+            let k = (i / (9 * np)) as usize + 1;
+            let mut items = vec![d("A", "a1 a2"), Item::Define { name: "F".into(), formals: Some(vec![("x".into(), None)]), body: "[ x ]".into() }];
+            for j in 0..k {
+                items.push(pattern[(start + j * stride) % pattern.len()].clone());
+                // never leave a directive right after a string literal (finding F1 would mask everything)
+                if matches!(items.last(), Some(Item::Str(_))) {
+                    items.push(Item::Text);
+                }
+            }
+            items.push(Item::Text);
+            pp::check_prog(acc, &Prog { items, layout, pre: vec![] }, or, "long program");
+        }));
+    }
+    {
         let sp = pp::macro_extra_profile();
         c.parts.push(Part::new("macro-shapes", sp.len(), "hand-picked macro shapes x 3 layouts", move |i, acc| {
             pp::check_prog(acc, &sp.get(i), or, "macro shapes");
